@@ -310,7 +310,10 @@ def check_function(ctx, qualname: str, rule_prefix: str = "KEY", expect_min: int
             if len(ks) > 1:
                 bad1 = True
                 offending = [(k, nd) for k, nd in di.levels[lv] if k is not None]
-                first = offending[0][0]
+                tally: dict = {}
+                for k, _ in offending:
+                    tally[k] = tally.get(k, 0) + 1
+                first = max(tally, key=lambda k: tally[k])          # the majority kind is what is stored
                 odd = next(((k, nd) for k, nd in offending if k != first), offending[-1])
                 ctx.violation(f"{rule_prefix}1", inst, function=qualname,
                               construct=f"bookkeeping dictionary level {lv} accessed with keys of different domains "
